@@ -51,7 +51,8 @@ void harness_verify_small(void) {
     scratch.max_size = in.max_size; scratch.alloc_size = in.alloc0;
     __CPROVER_assume(in.max_size <= sizeof(arena));
     __CPROVER_assume(!secp256k1_scalar_check_overflow(&in.rho));
-    r = secp256k1_bppp_rangeproof_norm_product_verify(&ctx, &scratch, in.proof, PL, &tr, &in.rho, &gv, GL, in.c, CL, &in.commit);
+    { EXACT(xproof, in.proof, PL);
+    r = secp256k1_bppp_rangeproof_norm_product_verify(&ctx, &scratch, xproof, PL, &tr, &in.rho, &gv, GL, in.c, CL, &in.commit); }
     __CPROVER_assert(r == 0 || r == 1, "boolean");
     if (be_val(&in.proof[65 * ROUNDS], 32) >= N || be_val(&in.proof[65 * ROUNDS + 32], 32) >= N) __CPROVER_assert(r == 0, "n or l >= group order rejected");
     if (secp256k1_scalar_is_zero(&in.rho)) __CPROVER_assert(r == 0, "zero challenge base rho rejected");
@@ -91,7 +92,11 @@ typedef struct { unsigned char data[33 * NG + 1]; int fail_at, extra; } g_in_t; 
 void harness_gens_parse(void) {
     secp256k1_context ctx; g_in_t in = nondet_g_in(); secp256k1_bppp_generators *g; size_t len = 33 * NG + ((in.extra & 1) ? 1 : 0);
     verif_ctx_init(&ctx); gp_fail_at = in.fail_at;
+#ifdef EXACTBUF
+    { unsigned char *xd = malloc(len ? len : 1); __CPROVER_assume(xd != NULL); memcpy(xd, in.data, len); g = secp256k1_bppp_generators_parse(&ctx, xd, len); free(xd); }
+#else
     g = secp256k1_bppp_generators_parse(&ctx, in.data, len);
+#endif
     if (len % 33) __CPROVER_assert(g == NULL && gp_calls == 0, "length not a multiple of 33 rejected before allocating");
     if (in.fail_at >= 0 && in.fail_at < NG) __CPROVER_assert(g == NULL, "any malformed point rejects the whole list");
     if (g != NULL) { __CPROVER_assert(g->n == NG && gp_calls == NG, "accepted list has data_len/33 generators"); secp256k1_bppp_generators_destroy(&ctx, g); __CPROVER_assert(NG < 0, "witness: accepted"); }
